@@ -117,6 +117,10 @@ ProxyProtocol::One::ParseAddresses(Parser::Tokenizer &tok, Header::Pointer &head
 
     ExtractPort(tok, header->sourceAddress, true);
     ExtractPort(tok, header->destinationAddress, false);
+
+    // the destination port ends the line
+    if (!tok.atEnd())
+        throw TexcHere("PROXY/1.0 error: garbage after port");
 }
 
 /// parses PROXY protocol v1 header from the buffer
